@@ -24,6 +24,7 @@ type c06Case struct {
 	PadLen  int     `json:"padlen"`
 	PadPat  int     `json:"padpat"`
 	IVPat   int     `json:"ivpat"`
+	Warm    int     `json:"warm"` // lib2ref: the sending key object has carried a long (1) / an empty (2) message before
 }
 
 func init() {
@@ -60,6 +61,7 @@ func padBytes(n, pat int) []byte {
 }
 
 func runC06(c *engine.Ctx) {
+	c06Boundary(c)
 	patterns := []int{2, 3 + int(c.Seed%5)}
 	if c.Thorough() {
 		patterns = []int{0, 1, 2, 3 + int(c.Seed%5)}
@@ -76,6 +78,9 @@ func runC06(c *engine.Ctx) {
 			for _, sI := range []bool{true, false} {
 				for _, pat := range patterns {
 					evalC06(c, c06Case{K: "lib2ref", Name: name, M: m, Suite: si, Pattern: pat, SenderI: sI})
+					if pat == 2 {
+						evalC06(c, c06Case{K: "lib2ref", Name: name, M: m, Suite: si, Pattern: pat, SenderI: sI, Warm: 1 + (si+b2int(sI))%2})
+					}
 				}
 				minPad := (16 - (len(inner)+1)%16) % 16
 				if len(m.P) <= 1 {
@@ -96,6 +101,20 @@ func runC06(c *engine.Ctx) {
 	})
 }
 
+func c06Boundary(c *engine.Ctx) {
+	for inner := 65466; inner <= 65496; inner++ {
+		for si := 0; si < 9; si++ {
+			if !c.Mine() {
+				continue
+			}
+			m := ref.Msg{H: univ.BaseHdr, P: []ref.Payload{{T: ref.PNonce, Data: univ.Pat(inner-4, inner)}}}
+			evalC06(c, c06Case{K: "lib2ref", Name: fmt.Sprintf("protected.inner=%d", inner), M: m, Suite: si, Pattern: 2, SenderI: inner%2 == 0})
+			pad := (16 - (inner+1)%16) % 16
+			evalC06(c, c06Case{K: "ref2lib", Name: fmt.Sprintf("protected.inner=%d", inner), M: m, Suite: si, Pattern: 2, SenderI: inner%2 == 1, PadLen: pad, PadPat: 2, IVPat: 1})
+		}
+	}
+}
+
 func evalC06(c *engine.Ctx, cs c06Case) {
 	c.Evals++
 	c.Transitions++
@@ -113,6 +132,14 @@ func evalC06(c *engine.Ctx, cs c06Case) {
 		if err != nil {
 			c.Violate("build-error", errStr(err), cs)
 			return
+		}
+		if cs.Warm != 0 {
+			peer, _ := univ.NewSA(ks)
+			var werr error
+			if pi := engine.Catch(func() { werr = warmUp(sa, peer, cs.SenderI, cs.Warm) }); pi != nil || werr != nil {
+				c.Violate("warm-up-failed", fmt.Sprintf("%v %v", pi, werr), cs)
+				return
+			}
 		}
 		seam := engine.NewSeam(nil, nil)
 		seam.Stream = uint64(cs.Pattern)
@@ -140,6 +167,9 @@ func evalC06(c *engine.Ctx, cs c06Case) {
 			if _, e2 := ref.Unprotect(ks.Suite, oske, oska, b, true); e2 == nil {
 				why = "wrong-direction-keys"
 			}
+			if cs.Warm != 0 {
+				why += "/used-sa"
+			}
 			c.Violate("lib2ref/"+why, fmt.Sprintf("%s %v %s: independent receiver refuses: %v; wire=%s", cs.Name, ks.Suite, dir, uerr, engine.Hex(trunc(b, 100))), cs)
 			return
 		}
@@ -156,7 +186,7 @@ func evalC06(c *engine.Ctx, cs c06Case) {
 			return
 		}
 		if ref.CanonPayloads(r.Payloads) != ref.CanonPayloads(m.P) {
-			c.Violate("lib2ref/inner/"+ref.FirstDiff(m.P, r.Payloads), fmt.Sprintf("%s: inner payloads %s", cs.Name, trs(ref.CanonPayloads(r.Payloads))), cs)
+			c.Violate("lib2ref/inner/"+ref.FirstDiff(m.P, r.Payloads)+map[bool]string{true: "/used-sa", false: ""}[cs.Warm != 0], fmt.Sprintf("%s: inner payloads %s", cs.Name, trs(ref.CanonPayloads(r.Payloads))), cs)
 			return
 		}
 		n := len(r.Inner)
